@@ -88,6 +88,7 @@ func newWorldUDP(cfg ref.Config, ch *env.Chooser) (*World, error) {
 	w.UDP = f
 	w.sentBase = transmitted()
 	w.Ctx, w.Cancel = newCtx()
+	backoff.VerifNow = nil
 	backoff.VerifSleep = func(ctx context.Context, d time.Duration) bool {
 		// back-off waits are skipped; a retry loop that neither ends nor reaches
 		// the socket is stopped by ending the caller's context
@@ -201,6 +202,7 @@ func newWorld(cfg ref.Config, ch *env.Chooser, clock *env.Clock) *World {
 		clock.Cancel = w.Cancel
 	}
 	backoff.VerifSleep = w.T.Sleep
+	backoff.VerifNow = nil
 	w.Conn = bmc.NewV2SessionlessTransportVerif(w.T, time.Hour, &backoff.ZeroBackOff{})
 	env.InstallRand(1)
 	return w
@@ -208,6 +210,8 @@ func newWorld(cfg ref.Config, ch *env.Chooser, clock *env.Clock) *World {
 
 // guard runs f and converts a panic into a description (site included).
 func guard(f func()) (panicked string) {
+	watchEnter()
+	defer watchLeave()
 	defer func() {
 		if e := recover(); e != nil {
 			if r, ok := e.(env.Runaway); ok {
